@@ -12,14 +12,8 @@ PREDICATES = {
     'any': lambda case, v: True,
     'directed_input': lambda case, v: not np.array_equal(_W(case), _W(case).T),
     'reached_level_2': lambda case, v: ((v.get('info') or {}).get('maxlevel') or 0) >= 2,
-    # all connections (self-weights aside) share one weight whose rounding noise is not small against the routines' absolute
-    # 1e-10 gain threshold: weight >= 1e6 in float64 (eps 2.2e-16), weight >= 1e-3 in float32 (eps 1.2e-7)
-    'uniform_large_weights': lambda case, v: (lambda W, O: O.size > 0 and len(np.unique(O)) == 1
-                                              and float(O.max()) >= (1e-3 if W.dtype == np.float32 else 1e6))(
-        _W(case), (lambda W: np.abs(W[(W != 0) & ~np.eye(len(W), dtype=bool)]))(_W(case))),
-    'narrow8_R_and_D': lambda case, v: bool((case.get('meta') or {}).get('narrow8')),
-    # 8-bit integer matrices (any optimiser), or unsigned integer matrices of any width in the Louvain routines
-    'narrow8_W': lambda case, v: (bool((case.get('meta') or {}).get('narrow8')) and _W(case).dtype.itemsize == 1)
-    or (_W(case).dtype.kind == 'u' and str(v.get('routine', '')).startswith('modularity_louvain')),
+    # all connections (self-weights aside) share one weight >= 1e6
+    'uniform_large_weights': lambda case, v: (lambda O: O.size > 0 and float(O.max()) >= 1e6 and len(np.unique(O)) == 1)(
+        (lambda W: np.abs(W[(W != 0) & ~np.eye(len(W), dtype=bool)]))(_W(case))),
     'gamma_ne_1': lambda case, v: abs(case['params'].get('gamma', 1) - 1) > 1e-12,
 }
